@@ -15,7 +15,7 @@ SRC = {
     "lib/lib.go": "package lib\n\nimport \"reflect\"\n\ntype rec struct{ Field int }\n\nfunc Name() string { return reflect.TypeOf(rec{}).Name() }\n\nfunc Count() int { return len(\"a literal in lib\") }\n",
 }
 base = ensure_base(g, [], None)
-dl = Deadline(420 if tier == "quick" else 7200)
+dl = Deadline(240 if tier == "quick" else 7200)
 
 def norm(path, root):
     p = path.replace(root, "")
@@ -117,13 +117,18 @@ def sel_quick_classes(ops):
     first, last = {}, {}
     for n, sc, p in ops:
         first.setdefault((sc, p), n); last[(sc, p)] = n
-    every = [n for i, (n, sc, p) in enumerate(ops) if i % 4 == 0]
+    every = [n for i, (n, sc, p) in enumerate(o for o in ops if o[1] != "utimens") if i % 4 == 0]   # see sel_all_but_mkdirs
     return sorted(set(first.values()) | set(last.values()) | set(every))
 def sel_all_but_mkdirs(ops):
     ks = []; mk = [n for n, s, p in ops if s == "mkdir" and re.search(r"/(gocache|garblecache/build)/<xx>$", p)]
     keep_mk = set(mk[:1] + mk[len(mk) // 2:len(mk) // 2 + 1] + mk[-1:])
+    # cmd/go refreshes the mtime of every cache entry it uses that is older than an hour: hundreds of utimens calls when the
+    # prepared caches are old, none when they are fresh; a kill before one of them leaves the state of the previous boundary
+    ut = [n for n, s, p in ops if s == "utimens"]
+    keep_ut = set(ut[:1] + ut[-1:])
     for n, s, p in ops:
         if n in mk and n not in keep_mk: continue
+        if s == "utimens" and n not in keep_ut: continue
         ks.append(n)
     return ks
 def sel_quick_A(ops):
@@ -160,15 +165,17 @@ def prep_stale_linker(root):
 
 def scenario_debugdir():
     """A build with -debugdir over a directory that an earlier build of garble owns. garble empties that directory first
-    (os.RemoveAll: unlink/rmdir in directory order). A kill inside that phase leaves the directory with some subset of its
-    top-level entries gone, which subset depends on the directory order the file system answers. Deciding step: ALL subsets of
-    the top-level entries removed (every state reachable under some directory order), plus half-emptied sub-trees, each followed
-    by the real build. Conformance: a supervised real run shows the emptying phase is only unlink/rmdir inside the directory,
-    in the order the file system lists it, and real kills at its first, middle and last boundary recover."""
+    (unlink/rmdir, following the order in which the file system lists the entries). Which entries are already gone when a
+    kill lands inside that phase depends on that order, so the order is enumerated as an environment answer: the directory is
+    rebuilt on tmpfs (which lists entries by creation time) once per permutation of its top-level entries, the real build is
+    run under the supervisor, and it is killed at every top-level boundary of the emptying phase (plus inside a sub-tree);
+    the same build is then run again."""
     name = "D-owned-debugdir"
     S0 = os.path.join(g.root, "S0-" + name); compose(S0, [base])
     src = os.path.join(g.root, "src-" + name); write_module(src, SRC, modpath=MODP)
     DD0 = os.path.join(g.root, "dd0")
+    shm = "/dev/shm/verif-c18-%d-dd" % os.getpid()
+    shutil.rmtree(shm, ignore_errors=True); os.makedirs(shm)
     def build(root, dd, tag, k=None, logpath=None):
         tmp = os.path.join(root, "tmp-" + tag); shutil.rmtree(tmp, ignore_errors=True)
         gg = Garble(binpath=g.bin, gocache=os.path.join(root, "gocache"), garblecache=os.path.join(root, "garblecache"), name="c18")
@@ -181,7 +188,7 @@ def scenario_debugdir():
         shutil.rmtree(tmp, ignore_errors=True)
         return p, left
     def fileset(d): return sorted(os.path.relpath(os.path.join(r, f), d) for r, _, fs in os.walk(d) for f in fs)
-    p, _ = build(S0, DD0, "prep")          # fills the caches' debug artifacts and DD0 (first -debugdir build rebuilds everything)
+    p, _ = build(S0, DD0, "prep")          # fills the caches' debug artifacts and DD0 (the first -debugdir build rebuilds everything)
     if p.returncode != 0:
         log("FATAL: -debugdir reference build failed:", short(p.stderr, 2000)); sys.exit(2)
     p, _ = build(S0, DD0, "ref")           # warm build over the owned directory: the reference
@@ -190,87 +197,89 @@ def scenario_debugdir():
     refsha = sha256_file(os.path.join(S0, "out")); reffiles = fileset(DD0)
     os.remove(os.path.join(S0, "out"))
     top = sorted(os.listdir(DD0))
-    dirs = [e for e in top if os.path.isdir(os.path.join(DD0, e))]
-    states = [("removed:" + (",".join(sub) or "nothing"), list(sub), None) for r in range(len(top) + 1) for sub in itertools.combinations(top, r)]
-    for d in (dirs if tier != "quick" else dirs[:1]):
-        for also in ([], [e for e in top if e not in dirs]):
-            states.append(("half-emptied:%s%s" % (d, "+removed:" + ",".join(also) if also else ""), also, d))
-    log("[%s] owned debugdir holds %d files, top-level entries %s; %d crash states" % (name, len(reffiles), top, len(states)))
-    def apply_state(dd, removed, half):
-        for e in removed:
-            pth = os.path.join(dd, e)
-            shutil.rmtree(pth) if os.path.isdir(pth) else os.remove(pth)
-        if half:
-            files = [os.path.join(r, f) for r, _, fs in os.walk(os.path.join(dd, half)) for f in fs]
-            for f in files[:len(files) // 2]: os.remove(f)
-    def one_state(i):
-        label, removed, half = states[i]
-        root = os.path.join(g.root, "d-%d" % i); link_clone(S0, root)
-        dd = os.path.join(root, "dd"); shutil.copytree(DD0, dd)
-        apply_state(dd, removed, half)
-        p, left = build(root, dd, "s")
-        res = {"label": label, "rc": p.returncode, "stderr": p.stderr, "left": left}
-        if p.returncode == 0:
-            res["sha"] = sha256_file(os.path.join(root, "out")); res["files"] = fileset(dd)
+    def make_dd(dst, want):
+        """copy of DD0 whose top-level entries are LISTED in the order `want` (tmpfs lists by creation time; the direction is probed)."""
+        for order in (list(want), list(reversed(want))):
+            shutil.rmtree(dst, ignore_errors=True); os.makedirs(dst)
+            for e in order:
+                sp = os.path.join(DD0, e)
+                shutil.copytree(sp, os.path.join(dst, e)) if os.path.isdir(sp) else shutil.copy2(sp, os.path.join(dst, e))
+            if os.listdir(dst) == list(want): return True
+        return False
+    perms = list(itertools.permutations(top))
+    if tier == "quick":   # the sentinel listed first, in the middle, last
+        sent = [e for e in top if not os.path.isdir(os.path.join(DD0, e))][:1]
+        rest = [e for e in top if e not in sent]
+        perms = [tuple(sent + rest), tuple(rest[:1] + sent + rest[1:]), tuple(rest + sent)] if sent else perms[:3]
+    log("[%s] owned debugdir holds %d files, top-level entries %s; %d directory orders" % (name, len(reffiles), top, len(perms)))
+    stats = {"orders": 0, "orders_not_realisable": 0, "kills": 0, "emptying_phase_mutations": 0, "order_followed_by_garble": []}
+    def one_order(pi):
+        want = perms[pi]
+        dd = os.path.join(shm, "o%d" % pi)
+        if not make_dd(dd, want): return {"order": want, "unrealisable": True}
+        root = os.path.join(g.root, "do-%d" % pi); link_clone(S0, root)
+        lp = os.path.join(g.root, "log-%s-%d" % (name, pi))
+        p, _ = build(root, dd, "log", logpath=lp)
         shutil.rmtree(root, ignore_errors=True)
-        return res
-    results = pmap(one_state, range(len(states)), workers=6)
-    for r in results:
-        what = "[%s] -debugdir target left by a kill while garble was emptying it (%s), then the same build again" % (name, r["label"])
-        replay = {"replay.txt": what + "\ncommand: garble -debugdir=dd build -p 1 -o out .\n"}
-        cls = r["label"].split(":")[0] + ":" + ("sentinel-gone" if ".garble-debugdir" in r["label"] else "sentinel-kept")
-        if r["rc"] != 0:
-            R.violation("recovery-fails:debugdir:" + cls, "%s: exits %d: %s" % (what, r["rc"], short(r["stderr"], 500)), replay)
-        elif r["sha"] != refsha:
-            R.violation("recovery-binary-differs:debugdir:" + cls, "%s: binary differs from the uninterrupted build" % what, replay)
-        elif r["files"] != reffiles:
-            R.violation("recovery-debugdir-incomplete:" + cls, "%s: debugdir holds %d files instead of %d" % (what, len(r["files"]), len(reffiles)), replay)
-        if r["left"]:
-            R.violation("recovery-leaves-temp:debugdir:" + cls, "%s: left %s in TMPDIR" % (what, r["left"]), replay)
-    # conformance of the state model with the real emptying phase + real kills inside it
-    root = os.path.join(g.root, "d-log"); link_clone(S0, root); dd = os.path.join(root, "dd"); shutil.copytree(DD0, dd)
-    order = os.listdir(dd)
-    lp = os.path.join(g.root, "log-" + name)
-    p, _ = build(root, dd, "log", logpath=lp)
-    ops = [l.split("\t") for l in read(lp).split("\n") if l and l[0].isdigit()]
-    phase = []
-    for o in ops:
-        if o[2] != "unlink": break
-        phase.append((int(o[0]), o[3]))
-    seen_top = []
-    for n, pth in phase:
-        rel = os.path.relpath(pth, dd) if pth.startswith(dd) else pth
-        t = rel.split("/")[0]
-        if rel != "." and (not seen_top or seen_top[-1] != t): seen_top.append(t)
-    conform = p.returncode == 0 and len(phase) >= len(reffiles) and seen_top == order
-    log("[%s] real emptying phase: %d unlink/rmdir before the first other mutation; top-level order %s (directory lists %s): model %s" % (
-        name, len(phase), seen_top, order, "conforms" if conform else "DOES NOT CONFORM"))
-    shutil.rmtree(root, ignore_errors=True)
-    kills = 0
-    if phase:
-        ks = sorted(set([phase[0][0], phase[len(phase) // 2][0], phase[-1][0]])) if tier != "quick" else [phase[len(phase) // 2][0]]
+        ops = [l.split("\t") for l in read(lp).split("\n") if l and l[0].isdigit()]
+        phase = []
+        for o in ops:
+            if o[2] != "unlink": break
+            phase.append((int(o[0]), o[3]))
+        def topof(pth):
+            rel = os.path.relpath(pth, dd)
+            return None if rel == "." else rel.split("/")[0]
+        seen = []; switch = []
+        for n, pth in phase:
+            t = topof(pth)
+            if t is not None and (not seen or seen[-1] != t):
+                seen.append(t); switch.append(n)
+        # kill before: the 2nd mutation, the first mutation of every further top-level entry, the middle of the phase, its last mutation
+        ks = sorted(set(([phase[1][0]] if len(phase) > 1 else []) + switch[1:] + [phase[len(phase) // 2][0], phase[-1][0]])) if phase else []
+        if tier == "quick": ks = ks[:2]
         def one_kill(k):
-            root = os.path.join(g.root, "dk-%d" % k); link_clone(S0, root); dd = os.path.join(root, "dd"); shutil.copytree(DD0, dd)
-            lp = os.path.join(g.root, "klog-%s-%d" % (name, k))
-            build(root, dd, "k", k=k, logpath=lp)
-            killed = any(l.startswith("KILL") for l in (read(lp).split("\n") if os.path.exists(lp) else []))
-            p2, left = build(root, dd, "r")
-            res = {"k": k, "killed": killed, "rc": p2.returncode, "stderr": p2.stderr, "left": left}
+            ddk = "%s-k%d" % (dd, k)
+            make_dd(ddk, want)
+            root = os.path.join(g.root, "dk-%d-%d" % (pi, k)); link_clone(S0, root)
+            lpk = os.path.join(g.root, "klog-%s-%d-%d" % (name, pi, k))
+            build(root, ddk, "k", k=k, logpath=lpk)
+            killed = any(l.startswith("KILL") for l in (read(lpk).split("\n") if os.path.exists(lpk) else []))
+            state = sorted(os.listdir(ddk)) if os.path.isdir(ddk) else None
+            p2, left = build(root, ddk, "r")
+            r = {"k": k, "killed": killed, "state": state, "rc": p2.returncode, "stderr": p2.stderr, "left": left}
             if p2.returncode == 0:
-                res["sha"] = sha256_file(os.path.join(root, "out")); res["files"] = fileset(dd)
-            shutil.rmtree(root, ignore_errors=True)
-            return res
-        for r in pmap(one_kill, ks, workers=3):
+                r["sha"] = sha256_file(os.path.join(root, "out")); r["files"] = fileset(ddk)
+            shutil.rmtree(root, ignore_errors=True); shutil.rmtree(ddk, ignore_errors=True)
+            return r
+        res = pmap(one_kill, ks, workers=4)
+        shutil.rmtree(dd, ignore_errors=True)
+        return {"order": want, "rc_log": p.returncode, "phase": len(phase), "seen": seen, "kills": res}
+    for rep in pmap(one_order, range(len(perms)), workers=3):
+        if rep.get("unrealisable"):
+            stats["orders_not_realisable"] += 1; continue
+        stats["orders"] += 1; stats["emptying_phase_mutations"] += rep["phase"]
+        stats["order_followed_by_garble"].append({"listed": list(rep["order"]), "removed_in_order": rep["seen"]})
+        if rep["rc_log"] != 0:
+            R.violation("build-fails:debugdir-owned", "[%s] directory order %s: the uninterrupted build over an owned debugdir fails" % (name, list(rep["order"])))
+        for r in rep["kills"]:
             if not r["killed"]: continue
-            kills += 1
-            what = "[%s] killed before mutation %d of the emptying phase, then the same build again" % (name, r["k"])
-            replay = {"replay.txt": what + "\n"}
-            if r["rc"] != 0: R.violation("recovery-fails:debugdir:real-kill", "%s: exits %d: %s" % (what, r["rc"], short(r["stderr"], 500)), replay)
-            elif r["sha"] != refsha: R.violation("recovery-binary-differs:debugdir:real-kill", what, replay)
-            elif r["files"] != reffiles: R.violation("recovery-debugdir-incomplete:real-kill", what, replay)
-    shutil.rmtree(S0, ignore_errors=True); shutil.rmtree(DD0, ignore_errors=True)
-    return {"crash_states": len(states), "files_in_debugdir": len(reffiles), "emptying_phase_mutations": len(phase), "model_conforms_to_real_run": conform, "real_kills": kills,
-            "states": [s[0] for s in states]}
+            stats["kills"] += 1
+            what = "[%s] directory lists %s; killed before mutation %d of the emptying phase (left: %s); then the same build again" % (name, list(rep["order"]), r["k"], r["state"])
+            replay = {"replay.txt": what + "\ncommand: crashsup -k %d -t dd -- garble -debugdir=dd build -p 1 -o out . ; then the same command without crashsup\n" % r["k"]}
+            cls = "sentinel-gone" if r["state"] and ".garble-debugdir" not in r["state"] else "sentinel-kept"
+            if r["rc"] != 0:
+                R.violation("recovery-fails:debugdir:" + cls, "%s: exits %d: %s" % (what, r["rc"], short(r["stderr"], 500)), replay)
+            elif r["sha"] != refsha:
+                R.violation("recovery-binary-differs:debugdir:" + cls, "%s: binary differs from the uninterrupted build" % what, replay)
+            elif r["files"] != reffiles:
+                R.violation("recovery-debugdir-incomplete:" + cls, "%s: debugdir holds %d files instead of %d" % (what, len(r["files"]), len(reffiles)), replay)
+            if r["left"]:
+                R.violation("recovery-leaves-temp:debugdir:" + cls, "%s: left %s in TMPDIR" % (what, r["left"]), replay)
+    log("[%s] %d directory orders realised on tmpfs, %d kills inside the emptying phase; removal orders observed: %s" % (
+        name, stats["orders"], stats["kills"], [o["removed_in_order"] for o in stats["order_followed_by_garble"]]))
+    shutil.rmtree(S0, ignore_errors=True); shutil.rmtree(DD0, ignore_errors=True); shutil.rmtree(shm, ignore_errors=True)
+    stats["files_in_debugdir"] = len(reffiles); stats["real_kills"] = stats["kills"]; stats["crash_states"] = 0
+    return stats
 
 import itertools
 total_ops = total_runs = total_kills = 0; hits = set(); allb = set()
@@ -312,8 +321,8 @@ R.finish({
             "touching GOCACHE, GARBLE_CACHE or the output, and in kill mode SIGKILLs the whole process tree just before mutation K; start states: " + ", ".join(n for n, _, _, _ in SC) + " "
             "(A: user packages cold; A2: all of GARBLE_CACHE/build empty; B: patched linker absent, rename install; C: another linker (the unpatched cmd/link) under a stale stamp, with TMPDIR on another file system = in-place copy install); after each kill the same command is run again on the surviving caches; oracle: exit 0 and binary = uninterrupted reference; "
             "distinct_nontrivial = distinct (syscall, normalised path) boundaries actually killed at. "
-            "D: `garble -debugdir=<owned, populated dir> build`: every subset of the directory's top-level entries already removed (all states a kill inside os.RemoveAll can leave under any directory order) "
-            "and half-emptied sub-trees, each followed by the real build; the emptying phase of a real supervised run is compared with this model and killed for real at three boundaries",
+            "D: `garble -debugdir=<owned, populated dir> build` with the directory rebuilt on tmpfs once per permutation of its top-level entries (directory order = environment answer; quick: sentinel listed first / in the middle / last), "
+            "killed for real before the 2nd mutation, at every top-level boundary, in the middle and at the end of the emptying phase, each followed by the same build again",
     "samples": [list(h) for h in sorted(hits)[:6]],
     "mutations_in_uninterrupted_builds": total_ops, "kill_runs": total_runs, "kills_effective": total_kills,
     "owned_debugdir_scenario": ddrep,
